@@ -44,13 +44,17 @@ TraitPath(t) ==
     [] t = "Ord" -> "::core::cmp::Ord" [] t = "Hash" -> "::core::hash::Hash" [] t = "Default" -> "::core::default::Default"
     [] t \in {"Into", "Into:A"} -> "::core::convert::Into<TA>" [] t = "Into:B" -> "::core::convert::Into<TB>" [] OTHER -> t
 
+\* targets are "A" / "B": their normalised type strings sort in that order
+SortedSeqStr(S) == IF S = {"A", "B"} THEN <<"A", "B">> ELSE IF S = {"A"} THEN <<"A">> ELSE IF S = {"B"} THEN <<"B">> ELSE <<>>
+
 \* ---------------------------------------------------------------- delegated fields
 AllFields(c) == { <<v, i>> : v \in 1..NVariants(c), i \in 1..3 } \cap { <<v, i>> \in (1..NVariants(c)) \X (1..3) : i <= NFields(c, v) }
 F(c, p) == c.variants[p[1]].fields[p[2]]
 
 \* which trait's where-clause an emitted impl carries: companions reuse the primary's
 Primary(c, t) ==
-  CASE t = "Eq" /\ HasTrait(c, "PartialEq") -> "PartialEq"
+  CASE t = "Default:new" -> "Default"                       \* the inherent `new()` impl repeats Default's header
+    [] t = "Eq" /\ HasTrait(c, "PartialEq") -> "PartialEq"
     [] t = "Copy" /\ HasTrait(c, "Clone") -> "Clone"
     [] t = "PartialOrd" /\ HasTrait(c, "Ord") -> "Ord"
     [] OTHER -> t
@@ -117,11 +121,33 @@ ImplParams(c) == ImplParamsOf(c.opts.gen)
 EmittedTraits(c) ==
   ({ c.opts.traits[k] : k \in DOMAIN c.opts.traits } \ {"Into"})
   \cup { "Into:" \o c.opts.targets[k] : k \in DOMAIN c.opts.targets }
+  \cup (IF HasTrait(c, "Default") /\ c.opts.newfn THEN {"Default:new"} ELSE {})
+
+\* The order in which the impls are emitted: handlers run in a fixed source order whatever the order of the
+\* attribute; a companion impl is emitted by its primary's handler, right after the primary (so PartialOrd comes
+\* *after* Ord when both are educed); Into targets follow the order of their normalised type strings.
+HandlerSeq == <<"Debug", "Clone", "Copy", "PartialEq", "Eq", "PartialOrd", "Ord", "Hash", "Default", "Deref", "DerefMut", "Into">>
+EmittedBy(c, h) ==
+  LET has(t) == HasTrait(c, t) IN
+  CASE ~has(h) -> <<>>
+    [] h = "Clone" -> IF has("Copy") THEN <<"Clone", "Copy">> ELSE <<"Clone">>
+    [] h = "Copy" -> IF has("Clone") THEN <<>> ELSE <<"Copy">>
+    [] h = "PartialEq" -> IF has("Eq") THEN <<"PartialEq", "Eq">> ELSE <<"PartialEq">>
+    [] h = "Eq" -> IF has("PartialEq") THEN <<>> ELSE <<"Eq">>
+    [] h = "PartialOrd" -> IF has("Ord") THEN <<>> ELSE <<"PartialOrd">>
+    [] h = "Ord" -> IF has("PartialOrd") THEN <<"Ord", "PartialOrd">> ELSE <<"Ord">>
+    [] h = "Default" -> IF c.opts.newfn THEN <<"Default", "Default:new">> ELSE <<"Default">>
+    [] h = "Into" -> [k \in 1..Len(SortedSeqStr(SeqToSet(c.opts.targets))) |-> "Into:" \o SortedSeqStr(SeqToSet(c.opts.targets))[k]]
+    [] OTHER -> <<h>>
+RECURSIVE EmissionFrom(_, _)
+EmissionFrom(c, k) == IF k > Len(HandlerSeq) THEN <<>> ELSE EmittedBy(c, HandlerSeq[k]) \o EmissionFrom(c, k + 1)
+EmissionOrder(c) == EmissionFrom(c, 1)
 
 \* the emitted item list: exactly one impl per educed trait and per requested Into target, nothing else
 PropItemSet(c, e) ==
   /\ SeqToSet(e.trs) = EmittedTraits(c)
   /\ Len(e.trs) = Cardinality(EmittedTraits(c))
+  /\ e.trs = EmissionOrder(c)
 
 \* one observed impl item: e.tr = trait name, e.generics = sequence of parameter strings, e.where = sequence of
 \* predicate strings (white space removed, in the order written)
